@@ -13,7 +13,8 @@ EXPLANATION = (
     "types; hand-written: raft Log) the (key, field) pairs pushed by to_db_values, the key under which from_db_element "
     "looks each field up and the keys listed by db_keys agree; db_id is taken from element.id and never written as a value.")
 DECIDED = ["R22a derive generators: same field sequence, key through field_name, same classification (SIBLING)",
-           "R22b per-type key tables of to_db_values / from_db_element / db_keys agree (TABLE)"]
+           "R22b per-type key tables of to_db_values / from_db_element / db_keys agree (TABLE)",
+           "R08c properties die with the element (shared with C08)"]
 UNDECIDED = ["arbitrary user programs outside the workspace (only the generators and the in-workspace expansions are analysed)",
              "value equality after the round trip (needs execution)",
              "the string the generated find_map closure compares with is a promoted constant that is not in the facts; the "
